@@ -83,7 +83,8 @@ Definition round_shape_ok (inst : fri_instance) (p : fri_params) (q : fri_query_
   && steps_shape_ok (qr_steps q) (reduction_arity_bits p) (lde_bits p) ch.
 
 Definition validate_fri_proof_shape (inst : fri_instance) (p : fri_params) (pr : fri_proof) : bool :=
-  forallb (fun c => Nat.eqb (length c) (2 ^ cap_height (config p))) (fp_caps pr)
+  Nat.eqb (length (fp_caps pr)) (length (reduction_arity_bits p))
+  && forallb (fun c => Nat.eqb (length c) (2 ^ cap_height (config p))) (fp_caps pr)
   && forallb (round_shape_ok inst p) (fp_rounds pr)
   && Nat.eqb (length (fp_final pr)) (final_poly_len p).
 
